@@ -3,19 +3,24 @@
    a weak connection whose enclosing group contains the whole cycle): the independent predicate spec_unresolved of
    harness/props/c06.py, compared exhaustively with the implementation and the extracted model on all small
    multigraphs x group placements.
-   Proved here (C06_partial): the cycle named in the error is real - a closed walk of the input-delay graph
-   whose combined delay is zero in every tier - for every graph, any number of simulators and tiers; the check is
-   performed by World.run before any simulator task exists (Sched/Link.prepare has no events).
-   Missing: completeness (every unresolved cycle is found) needs the minimality of the closure fixpoint. *)
+   Proved here: soundness of a rejection for every graph, any number of simulators and tiers - the cycle named in the
+   error is real: a closed walk of the input-delay graph whose combined delay is zero in every tier
+   (C06_reported_cycle_is_real); the check is performed by World.run before any simulator task exists
+   (Sched/Link.prepare has no events).  Completeness for input-delay tables whose delays all have the same shape (flat
+   scenarios and scenarios whose simulators all sit in one group): if the check accepts, every closed walk through a
+   simulator has a non-zero combined delay and contains a resolving (time-shifted or weak) connection
+   (C06_accepted_cycles_are_resolved; worklist invariant of Static/CycleC.v).
+   Missing (C06_partial): completeness when delays of different shapes meet (nested / sibling groups), where the order
+   on delays is partial (known finding F9 lives there). *)
 From Coq Require Import ZArith List Bool Arith.
 Import ListNotations.
-From MV Require Import Time.Spec Static.Groups Static.Connect Static.Build Static.Cycle Static.CycleP.
+From MV Require Import Time.Spec Static.Groups Static.Connect Static.Build Static.Cycle Static.CycleP Static.CycleC.
 
-Theorem C06_partial_reported_cycle_is_real : forall ind fuel sims path, wk_indel ind = true ->
+Theorem C06_reported_cycle_is_real : forall ind fuel sims path, wk_indel ind = true ->
   cycle_check fuel ind sims = CycRejected path ->
   exists s d, hd_error path = Some s /\ last path 0%nat = s /\ walk_delay ind path = Some d /\ izero d = true /\ In s sims.
 Proof. exact rejected_path_is_zero_cycle_wk. Qed.
-Print Assumptions C06_partial_reported_cycle_is_real.
+Print Assumptions C06_reported_cycle_is_real.
 
 (* non-vacuity: A -> B plain, B -> A plain is rejected with the cycle [A; B; A] *)
 Example C06_nonvacuous :
@@ -23,3 +28,19 @@ Example C06_nonvacuous :
   let ind := [(1%nat, [(0%nat, z)]); (0%nat, [(1%nat, z)])] in
   wk_indel ind = true /\ cycle_check 100 ind [0%nat; 1%nat] = CycRejected [0%nat; 1%nat; 0%nat].
 Proof. vm_compute. split; reflexivity. Qed.
+
+Theorem C06_accepted_cycles_are_resolved : forall ind D sims fuel,
+  wk_indel ind = true -> uni_indel D ind = true -> cov_indel ind sims = true ->
+  cycle_check fuel ind sims = CycAccepted ->
+  forall p s W, hd_error p = Some s -> last p 0%nat = s -> In s sims -> walk_delay ind p = Some W ->
+  izero W = false /\ all_zero ind p = false.
+Proof. exact accepted_cycles_are_resolved. Qed.
+Print Assumptions C06_accepted_cycles_are_resolved.
+
+(* non-vacuity: A -> B plain, B -> A time-shifted is accepted, the premises hold, and the cycle A B A has delay 1 *)
+Example C06_complete_nonvacuous :
+  let z := mkI 1 1 [0%Z] in let o := mkI 1 1 [1%Z] in
+  let ind := [(1%nat, [(0%nat, z)]); (0%nat, [(1%nat, o)])] in
+  wk_indel ind = true /\ uni_indel 1 ind = true /\ cov_indel ind [0%nat; 1%nat] = true /\
+  cycle_check 100 ind [0%nat; 1%nat] = CycAccepted /\ walk_delay ind [0%nat; 1%nat; 0%nat] = Some o.
+Proof. vm_compute. repeat split; reflexivity. Qed.
